@@ -502,7 +502,7 @@ class _Frame:
             raise self.bad(f"division by zero: {e}", node)
 
     def truth(self, v, node):
-        if isinstance(v, (bool, int, str, list, tuple, dict, type(None))):
+        if isinstance(v, (bool, int, str, list, tuple, dict, set, frozenset, type(None))):
             return bool(v)
         if isinstance(v, (Fraction, MQ)):
             return v != 0
@@ -1239,9 +1239,14 @@ def _np_argsort(a, axis=-1, kind=None, **kw):
 
 def _np_sort(a, axis=-1, **kw):
     a, v = _ints(a, "sort")
-    if a.ndim != 1:
-        raise XArrayError("np.sort of a non 1-D array")
-    return XArray((len(v),), sorted(v))
+    if a.ndim == 1:
+        return XArray((len(v),), sorted(v))
+    if a.ndim == 2 and axis in (-1, 1):
+        n = a.shape[1]
+        return XArray(a.shape, [x for i in range(a.shape[0]) for x in sorted(v[i * n:(i + 1) * n])])
+    if a.ndim == 2 and axis == 0:
+        return _np_sort(a.T, axis=1).T
+    raise XArrayError("np.sort of this rank / axis is not modelled")
 
 
 def _np_unique(a, **kw):
@@ -1282,7 +1287,20 @@ def _np_full(shape, value, dtype=None, **kw):
     return XArray.full(tuple(int(x) for x in shape), exact(value))
 
 
-_NP_FUNCS.update(full=_np_full, argsort=_np_argsort, sort=_np_sort, unique=_np_unique, searchsorted=_np_searchsorted, broadcast_to=_np_broadcast_to)
+def _np_broadcast_shapes(*shapes):
+    shapes = [tuple(int(x) for x in s) for s in shapes]
+    nd = max((len(s) for s in shapes), default=0)
+    out = []
+    for k in range(nd):
+        dims = {s[len(s) - nd + k] for s in shapes if len(s) - nd + k >= 0}
+        dims.discard(1)
+        if len(dims) > 1:
+            raise ValueError("shape mismatch: objects cannot be broadcast to a single shape")
+        out.append(dims.pop() if dims else 1)
+    return tuple(out)
+
+
+_NP_FUNCS.update(broadcast_shapes=_np_broadcast_shapes, full=_np_full, argsort=_np_argsort, sort=_np_sort, unique=_np_unique, searchsorted=_np_searchsorted, broadcast_to=_np_broadcast_to)
 
 
 def _np_swapaxes(a, i, j):
